@@ -2,6 +2,7 @@
 {
  'package': 'brush-core',
  'host': 'brush-core/src/variables.rs',
+ 'heavy': True,
  'stubs': ['tracing -> no-op stub crate',
            'module re-instantiation: the whole text of variables.rs is compiled a second time inside the harness module with `std::collections::BTreeMap` replaced by a 3-slot array map that counts structural mutations (insert / remove)'],
  'assumptions': ['the std BTreeMap contract is what the 3-slot map implements (<= 3 elements per array)', 'element contents are concrete one-character or empty strings; the integer attribute and case transforms are off (their arithmetic is under C07 / outside)'],
